@@ -30,6 +30,11 @@ pub fn meta() -> Meta {
 }
 
 const DIRS: [&str; 3] = ["d1", "d2", "d3"];
+/// Pseudo directory index of the process's working directory (arrangement kind 10).
+const CWD: usize = 9;
+fn dir_name(d: usize) -> &'static str {
+    if d == CWD { "cwd" } else { DIRS[d] }
+}
 
 #[derive(Clone, Copy, Debug, PartialEq, Eq)]
 pub enum Mode {
@@ -49,7 +54,9 @@ pub struct Arrangement {
     /// never be read: the standard library is built in); 6: as 5, the decoy has a syntax error;
     /// 7: as 0, and every directory that lacks one of the files holds a *directory* of that name;
     /// 8: as 0, and every file ends with an annotation line (which belongs to whatever follows
-    /// the include); 9: file a is empty, file b holds white space only, c a comment only
+    /// the include); 9: file a is empty, file b holds white space only, c a comment only;
+    /// 10: as 0, and the working directory of the process holds its own copies of all the files
+    /// (the path as written is the last resort, after the search list)
     pub b_kind: u8,
 }
 
@@ -64,7 +71,7 @@ fn content(f: usize, dir: usize, b_kind: u8) -> String {
         1 => match b_kind {
             9 => "  \n\t\n".to_string(),
             8 => format!("int vb = {};\n@tail b 1\n@tail b 2\n", 20 + dir),
-            0 | 5 | 6 | 7 => format!("int vb = {};\n", 20 + dir),
+            0 | 5 | 6 | 7 | 10 => format!("int vb = {};\n", 20 + dir),
             1 => format!("int vb = {};\nint wb = va;\n", 20 + dir),
             3 => format!("int vb = ;\nint wb = {};\n", 20 + dir),
             4 => format!("int vb = 0b;\nint wb = {};\n", 20 + dir),
@@ -137,6 +144,19 @@ impl Tree {
         for d in 0..arr.ndirs {
             std::fs::create_dir_all(root.join(DIRS[d]))?;
         }
+        // an earlier history of the same paths: every file first holds other, longer contents
+        // and is analysed once in this process; what it held then must not matter afterwards
+        for (f, mask) in arr.presence.iter().enumerate() {
+            for d in 0..arr.ndirs {
+                if mask & (1 << d) != 0 {
+                    let dir = root.join(DIRS[d]);
+                    std::fs::write(dir.join(FILES[f]), format!("/* {} */\nint stale_{}_{} = nosuch_stale;\ngate stale_gate_{} w {{ }}\n", "earlier contents ".repeat(40), f, d, f))?;
+                    let main = format!("include \"{}\";\n", FILES[f]);
+                    let dirs = vec![dir];
+                    let _ = catch(move || parse_source_string_with_path_search(main.as_str(), Some("earlier.qasm"), Some(dirs.as_slice())).any_syntax_errors());
+                }
+            }
+        }
         for (f, mask) in arr.presence.iter().enumerate() {
             for d in 0..arr.ndirs {
                 if mask & (1 << d) != 0 {
@@ -151,6 +171,12 @@ impl Tree {
                         std::fs::create_dir_all(root.join(DIRS[d]).join(FILES[f]))?;
                     }
                 }
+            }
+        }
+        std::fs::create_dir_all(root.join("cwd"))?;
+        if arr.b_kind == 10 {
+            for f in 0..arr.presence.len() {
+                std::fs::write(root.join("cwd").join(FILES[f]), content(f, CWD, 10))?;
             }
         }
         if arr.b_kind == 5 || arr.b_kind == 6 {
@@ -174,8 +200,9 @@ impl Drop for Tree {
 /// R-fs: which directory does `name` resolve to under the search list?
 fn resolve(arr: &Arrangement, name: &str, effective: Option<&[usize]>) -> Option<usize> {
     let f = FILES.iter().position(|x| *x == name)?;
-    let list = effective?;
-    list.iter().copied().find(|d| arr.presence.get(f).map(|m| m & (1 << d) != 0).unwrap_or(false))
+    let in_list = effective.and_then(|list| list.iter().copied().find(|d| arr.presence.get(f).map(|m| m & (1 << d) != 0).unwrap_or(false)));
+    // not found through the list: the path as written, i.e. relative to the working directory
+    in_list.or(if arr.b_kind == 10 && f < arr.presence.len() { Some(CWD) } else { None })
 }
 
 /// Expected observation computed from the reference resolver: the inlined text, the spans of
@@ -209,7 +236,7 @@ fn expected(arr: &Arrangement, tree: &Tree, text: &str, effective: Option<&[usiz
                     if effective.map(|l| l.len() >= 2).unwrap_or(false) {
                         out.multi = true;
                     }
-                    tree.root.join(DIRS[d]).join(name)
+                    tree.root.join(dir_name(d)).join(name)
                 })
             };
             match path {
@@ -281,7 +308,7 @@ impl Configs {
                 presence.push((x % masks) as u8);
                 x /= masks;
             }
-            for b_kind in 0..10u8 {
+            for b_kind in 0..11u8 {
                 // kinds 1 to 4 only matter when b is present somewhere
                 if (1..=4).contains(&b_kind) && presence.get(1).copied().unwrap_or(0) == 0 {
                     continue;
@@ -356,6 +383,9 @@ impl Configs {
         }
         let mt = main_text.clone();
         let mp = main_path.clone();
+        // the working directory is a directory of the tree (empty, or with its own copies of the
+        // files in arrangement kind 10)
+        let _ = std::env::set_current_dir(tree.root.join("cwd"));
         let observed = catch(move || {
             let run = |res_prog: &oq3_semantics::asg::Program, table: &SymbolTable, errs: &SemanticErrorList, any_syn: bool| {
                 let mut lists = Vec::new();
@@ -371,6 +401,7 @@ impl Configs {
             }
         });
         std::env::remove_var("QASM3_PATH");
+        let _ = std::env::set_current_dir(crate::verif_root());
         let (program, symbols, lists, any_syn) = match observed {
             Ok(x) => x,
             Err(p) => {
